@@ -46,6 +46,9 @@ type pipeCfg struct {
 	expand      int
 	decompCount *int
 	jsonRepeat  int
+	// failMarshal: the codecs cannot marshal a message that contains the byte 0xFF (decodable on the wire, no form
+	// in the other codec - like a Timestamp beyond year 9999 in JSON)
+	failMarshal bool
 }
 
 func clientProtocolOf(form int) Protocol {
@@ -332,6 +335,10 @@ type respScript struct {
 	announce     bool // gRPC trailers announced via "Trailer" header instead of http.TrailerPrefix
 	announceLow  bool // ... with lower-case names in the Trailer header
 	announceLine bool // ... all names in one comma-separated Trailer header line ("A, B, C")
+	// endComp: the end-of-stream frame in the body (gRPC-Web trailers, Connect end of stream) is itself compressed
+	// (flag 0x81 / 0x03): legal for both protocols when a response compression was declared, never sent by
+	// connect-go or grpc-go
+	endComp bool
 }
 
 type pipeBackend struct {
@@ -775,7 +782,11 @@ func (b *pipeBackend) ServeHTTP(w http.ResponseWriter, r *http.Request) {
 				blk += strings.ToLower(k) + ": " + v + "\r\n"
 			}
 		}
-		sw.write(appendFrame(nil, 0x80, []byte(blk)))
+		if s.endComp {
+			sw.write(appendFrame(nil, 0x81, refToyCompress([]byte(blk))))
+		} else {
+			sw.write(appendFrame(nil, 0x80, []byte(blk)))
+		}
 	default:
 		js := "{"
 		if s.errCode != 0 {
@@ -804,7 +815,11 @@ func (b *pipeBackend) ServeHTTP(w http.ResponseWriter, r *http.Request) {
 			js += "}"
 		}
 		js += "}"
-		sw.write(appendFrame(nil, 2, []byte(js)))
+		if s.endComp {
+			sw.write(appendFrame(nil, 3, refToyCompress([]byte(js))))
+		} else {
+			sw.write(appendFrame(nil, 2, []byte(js)))
+		}
 	}
 }
 
@@ -830,15 +845,24 @@ func (b *pipeBackend) serveUnary(w http.ResponseWriter, s *respScript) {
 		}
 	}
 	if s.errCode != 0 {
-		if b.target == ProtocolREST {
-			verifOutside("REST backend error bodies (protojson Status) are outside the encoding")
-		}
 		st, _ := refStatusFromRPC(s.errCode)
 		if st == 0 {
 			st = 500
 		}
 		h.Set("Content-Type", "application/json")
 		body := []byte(refJSONErrorDetails(s.errCode, s.errMsg, s.details))
+		if b.target == ProtocolREST {
+			// a REST backend reports its error as a google.rpc.Status document
+			if len(s.details) > 0 {
+				verifOutside("details in REST backend error bodies (protojson Any) are outside the encoding")
+			}
+			body = []byte(`{"code":` + strconv.Itoa(int(s.errCode)) + `,"message":"` + s.errMsg + `"}`)
+		}
+		if s.comp && b.target == ProtocolConnect {
+			// a Connect backend may compress its error document like any other unary response body
+			body = refToyCompress(body)
+			h.Set("Content-Encoding", "gzip")
+		}
 		if s.declareLen {
 			h.Set("Content-Length", strconv.Itoa(len(body)))
 		}
@@ -1265,7 +1289,7 @@ func newPipe(cfg *pipeCfg) *pipeRun {
 	svc.addMethod(pipeMethod, cfg.kind, cfg.idem, cfg.hasIdem)
 	target, codec, _ := refNegotiate(cfg)
 	p.backend = &pipeBackend{target: target, unary: cfg.kind == fkUnary, codec: codec, bufSize: 16}
-	fc := &fakeConfig{protocols: cfg.svcProtos, codecs: cfg.svcCodecs, maxMsg: cfg.maxMsg, maxGetURL: cfg.maxGetURL, unstable: cfg.unstable, expand: cfg.expand, decompCount: cfg.decompCount, jsonRepeat: cfg.jsonRepeat}
+	fc := &fakeConfig{protocols: cfg.svcProtos, codecs: cfg.svcCodecs, maxMsg: cfg.maxMsg, maxGetURL: cfg.maxGetURL, unstable: cfg.unstable, expand: cfg.expand, decompCount: cfg.decompCount, jsonRepeat: cfg.jsonRepeat, failMarshal: cfg.failMarshal}
 	if cfg.svcComp {
 		fc.compressors = []string{CompressionGzip}
 	}
